@@ -51,11 +51,11 @@ TOp == LET r == Events[l] IN
   /\ ops' = ops \cup {<<r.op, r.num>>}
 TInv == LET r == Events[l]
             full == IF r.shape = "sd" THEN SymEmbed(r.a) ELSE r.a
-            adj == IF r.shape = "sd" THEN SymOfDyad(Adjugate(full)) ELSE Adjugate(full)
+            scaled == IF r.shape = "sd" /\ r.pow2 = 1 THEN SymEmbed(r.scaled) ELSE r.scaled     \* Det * inverse, as a dyad
         IN
   /\ IsEvent("Inv") /\ r.shape \in {"sd", "d"}
-  /\ Flag(/\ (r.present = 1) = InverseDefined(full)
-          /\ r.pow2 = 1 => IsInverseTimesDet(r.scaled, IF r.shape = "sd" THEN SymEmbed(adj) ELSE adj) \/ r.scaled = adj,
+  /\ Flag(/\ (r.present = 1) = InverseDefined(full)                       \* absent exactly when the determinant is zero
+          /\ r.pow2 = 1 => IsInverseTimesDet(scaled, full),                 \* Det * inverse = Adjugate (Det a power of two: exact)
           [cls |-> "tensor_inverse", op |-> r.shape, num |-> r.num, a |-> r.a, b |-> <<>>, out |-> r.scaled])
   /\ ops' = ops \cup {<<"inverse_" \o r.shape, r.num>>}
 TSummary == LET r == Events[l] IN
